@@ -105,6 +105,7 @@ class Transaction:
         # Validate that the files exist in the file system
         # This is a critical check in production systems
         table_schema = self._resolve_table_schema()
+        synced_dirs: Set[str] = set()  # directories already fsynced by this call
         for data_file in files:
             # Protect the file from garbage collection for as long as this
             # transaction is live: a pre-built file may already be older than
@@ -123,7 +124,9 @@ class Transaction:
                 # would otherwise advance the pointer to a file that a power loss
                 # can still take away (files written by append_data are fsynced
                 # by the writer).
-                self.file_manager.storage.make_durable(data_file.file_path.lstrip("/"))
+                self.file_manager.storage.make_durable(
+                    data_file.file_path.lstrip("/"), synced_dirs
+                )
 
         # A file registered WITHOUT a checksum is never verified: scans guard
         # verification with `if verify and data_file.checksum`, so with
@@ -258,8 +261,16 @@ class Transaction:
         def ordered(schema: Schema) -> List[Any]:
             # Column ORDER matters here: the file is already written, and
             # concat_tables needs identical Arrow schemas.
+            # ...and so do field IDS: the file's column bounds are keyed by
+            # the ids it was written with, and pruning looks them up by the
+            # table's ids.
+            def type_key(t: Any) -> str:
+                if isinstance(t, dict) and set(t) == {"type"}:
+                    t = t["type"]  # {"type": "long"} and "long" are one type
+                return json.dumps(t, sort_keys=True)
+
             return [
-                (f.get("name"), json.dumps(f.get("type"), sort_keys=True), bool(f.get("required", False)))
+                (f.get("id"), f.get("name"), type_key(f.get("type")), bool(f.get("required", False)))
                 for f in schema.fields
             ]
 
